@@ -7,6 +7,10 @@ restore /repo with `git -C /repo checkout -- .` straight afterwards (also on err
 Writes seeded/results.json and seeded/RESULTS.md.  Nothing is ever committed to /repo.
 
   tools/run_seeded.py [name ...]        (default: all)
+  tools/run_seeded.py --jobs N [name ...]
+        development aid: the same, but each of N workers uses its own scratch worktree of /repo and its own copy of
+        /verif under /tmp/seedrun-<k>/ (VERIF_REPO points the translator and the harness build at the worktree), so that
+        several seeded defects are checked at once and /repo is never touched; scratch directories are removed at the end.
 """
 import json, os, re, subprocess, sys, time
 
@@ -24,7 +28,111 @@ def repo_clean():
     return out.strip() == ""
 
 
+def run_isolated(names, jobs):
+    import shutil, threading, queue
+    respath = os.path.join(VERIF, "seeded", "results.json")
+    results = json.load(open(respath)) if os.path.exists(respath) else {}
+    q = queue.Queue()
+    for n in names:
+        q.put(n)
+    lock = threading.Lock()
+
+    def worker(k):
+        base = "/tmp/seedrun-%d" % k
+        shutil.rmtree(base, ignore_errors=True)
+        os.makedirs(base)
+        wt = os.path.join(base, "repo")
+        vf = os.path.join(base, "verif")
+        sh(["git", "-C", REPO, "worktree", "add", "--detach", wt, "HEAD"])
+        sh(["cp", "-a", VERIF, vf])
+        shutil.rmtree(os.path.join(vf, "replays"), ignore_errors=True)
+        try:
+            while True:
+                try:
+                    name = q.get_nowait()
+                except queue.Empty:
+                    break
+                d = os.path.join(VERIF, "seeded", name)
+                meta = json.load(open(os.path.join(d, "meta.json")))
+                props = [meta["property"]] + meta.get("also_check", [])
+                sh(["git", "-C", wt, "checkout", "--", "."])
+                shutil.rmtree(os.path.join(wt, "fuzz"), ignore_errors=True)   # its path dependency does not exist here
+                rc, out = sh(["git", "-C", wt, "apply", os.path.join(d, "patch.diff")])
+                if rc != 0:
+                    with lock:
+                        results[name] = {"error": "patch does not apply"}
+                    continue
+                rec = {"property": meta["property"], "summary": meta.get("summary", ""), "checks": {}}
+                for p in props:
+                    t0 = time.time()
+                    env = dict(os.environ, VERIF_REPO=wt)
+                    pr = subprocess.run([os.path.join(vf, "check"), p, "--tier", "quick"], cwd=vf, stdout=subprocess.PIPE, stderr=subprocess.STDOUT, text=True, env=env)
+                    out = pr.stdout
+                    viol = [l for l in out.splitlines() if l.startswith("VIOLATION")]
+                    kind = None
+                    replay = None
+                    if viol:
+                        m = re.search(r"replay=(\S+)", viol[0])
+                        if m and os.path.exists(m.group(1)):
+                            rp = json.load(open(m.group(1)))
+                            replay = {"kind": rp.get("kind"), "failing_inputs": rp.get("failing_inputs", [])[:2],
+                                      "model_disagreements": [x[:300] for x in rp.get("model_disagreements", [])[:2]],
+                                      "broken_obligations": [str(b.get("what", b))[:200] for b in rp.get("broken_obligations", [])[:3]]}
+                            kind = rp.get("kind")
+                    rec["checks"][p] = {"exit": pr.returncode, "violation": bool(viol), "no_failing_input_found": bool(viol) and viol[0].rstrip().endswith("no-failing-input-found"),
+                                        "kind": kind, "replay": replay, "seconds": round(time.time() - t0, 1)}
+                    print(name, p, "exit", pr.returncode, "VIOLATION" if viol else "missed", flush=True)
+                rec["caught"] = any(c["violation"] for c in rec["checks"].values())
+                with lock:
+                    results[name] = rec
+                    json.dump(results, open(respath, "w"), indent=1)
+        finally:
+            sh(["git", "-C", REPO, "worktree", "remove", "--force", wt])
+            shutil.rmtree(base, ignore_errors=True)
+
+    ts = [threading.Thread(target=worker, args=(k,)) for k in range(jobs)]
+    for t in ts:
+        t.start()
+    for t in ts:
+        t.join()
+    return results
+
+
+def write_md(results):
+    lines = ["# Seeded defects: which checks catch which changes", "",
+             "Generated by `tools/run_seeded.py` (quick tier, seed 1). `input` = a concrete failing input / history was reported as the replay;",
+             "`obligation` = only a proof obligation or the correspondence broke (`no-failing-input-found`).", "",
+             "| seeded defect | property | what was changed | verdict | how |", "|---|---|---|---|---|"]
+    for name in sorted(results):
+        r = results[name]
+        if "checks" not in r:
+            continue
+        hows = []
+        for p, c in r["checks"].items():
+            if c["violation"]:
+                rp = c.get("replay") or {}
+                how = []
+                if rp.get("failing_inputs"):
+                    how.append("oracle input")
+                if rp.get("model_disagreements"):
+                    how.append("model/impl disagreement")
+                if rp.get("broken_obligations"):
+                    how.append("broken obligation: " + "; ".join(rp["broken_obligations"])[:120])
+                hows.append("%s: %s%s" % (p, ", ".join(how) or "violation", " (no-failing-input-found)" if c["no_failing_input_found"] else ""))
+            else:
+                hows.append("%s: not detected" % p)
+        lines.append("| %s | %s | %s | %s | %s |" % (name, r["property"], r["summary"].replace("|", "\\|")[:220], "caught" if r["caught"] else "**missed**", "<br>".join(hows).replace("|", "\\|")))
+    open(os.path.join(VERIF, "seeded", "RESULTS.md"), "w").write("\n".join(lines) + "\n")
+    print("written seeded/RESULTS.md")
+
+
 def main():
+    if len(sys.argv) > 2 and sys.argv[1] == "--jobs":
+        jobs = int(sys.argv[2])
+        names = sys.argv[3:] or sorted(n for n in os.listdir(os.path.join(VERIF, "seeded")) if os.path.isfile(os.path.join(VERIF, "seeded", n, "patch.diff")))
+        results = run_isolated(names, jobs)
+        write_md(results)
+        return
     names = sys.argv[1:] or sorted(n for n in os.listdir(os.path.join(VERIF, "seeded")) if os.path.isfile(os.path.join(VERIF, "seeded", n, "patch.diff")))
     respath = os.path.join(VERIF, "seeded", "results.json")
     results = json.load(open(respath)) if os.path.exists(respath) else {}
@@ -67,31 +175,7 @@ def main():
         json.dump(results, open(respath, "w"), indent=1)
     # the generated files must follow the restored source again
     sh([sys.executable, os.path.join(VERIF, "tools", "gen_lean.py")], cwd=VERIF)
-    lines = ["# Seeded defects: which checks catch which changes", "",
-             "Generated by `tools/run_seeded.py` (quick tier, seed 1). `input` = a concrete failing input / history was reported as the replay;",
-             "`obligation` = only a proof obligation or the correspondence broke (`no-failing-input-found`).", "",
-             "| seeded defect | property | what was changed | verdict | how |", "|---|---|---|---|---|"]
-    for name in sorted(results):
-        r = results[name]
-        if "checks" not in r:
-            continue
-        hows = []
-        for p, c in r["checks"].items():
-            if c["violation"]:
-                rp = c.get("replay") or {}
-                how = []
-                if rp.get("failing_inputs"):
-                    how.append("oracle input")
-                if rp.get("model_disagreements"):
-                    how.append("model/impl disagreement")
-                if rp.get("broken_obligations"):
-                    how.append("broken obligation: " + "; ".join(rp["broken_obligations"])[:120])
-                hows.append("%s: %s%s" % (p, ", ".join(how) or "violation", " (no-failing-input-found)" if c["no_failing_input_found"] else ""))
-            else:
-                hows.append("%s: not detected" % p)
-        lines.append("| %s | %s | %s | %s | %s |" % (name, r["property"], r["summary"].replace("|", "\\|")[:220], "caught" if r["caught"] else "**missed**", "<br>".join(hows).replace("|", "\\|")))
-    open(os.path.join(VERIF, "seeded", "RESULTS.md"), "w").write("\n".join(lines) + "\n")
-    print("written seeded/RESULTS.md")
+    write_md(results)
 
 
 main()
